@@ -264,6 +264,26 @@ def compare_on(stats, klass, toks, which="module"):
     if a != b:
         what = "accept/reject" if a[0] != b[0] else ("tree" if a[0] == "ok" else "error")
         stats.fail({"kind": "differential-" + what, "parser": which}, {"symbols": [t.symbol for t in toks], "texts": [t.text for t in toks]}, "loaded: %r\nfresh:  %r" % (a[:5], b[:5]))
+        return
+    # the entry points embossc actually calls (parse_module / parse_expression), on the same tokens and
+    # then on the same symbols and texts at OTHER source positions: each result must be the fresh
+    # parser's result for exactly the tokens given (a result remembered from an earlier call is not)
+    entry = parser.parse_module if which == "module" else parser.parse_expression
+    shift = 1 + (len(toks) % 7)
+    moved = [parser_types.Token(t.symbol, t.text, parser_types.SourceLocation((t.source_location.start.line + 1, t.source_location.start.column + shift), (t.source_location.end.line + 1, t.source_location.end.column + shift))) if t.source_location else t for t in toks]
+    for label, ts in (("same-positions", toks), ("moved-positions", moved)):
+        try:
+            got = result_shape(entry(ts))
+        except Exception:
+            import traceback
+
+            stats.fail(dict(kind="exception-entry-point", **emb.exc_signature()), {"symbols": [t.symbol for t in toks]}, traceback.format_exc())
+            return
+        want = result_shape(fresh.parse(ts))
+        stats.classes["entry-point:" + label] += 1
+        if got != want:
+            stats.fail({"kind": "entry-point-differs", "parser": which, "call": label}, {"symbols": [t.symbol for t in toks], "texts": [t.text for t in toks]}, "parser.%s: %r\nfresh:  %r" % (entry.__name__, got[:5], want[:5]))
+            return
 
 
 def shard(idx, seed, n):
